@@ -38,6 +38,11 @@ type T2 struct {
 	Ok   bool
 }
 
+type goHolder struct {
+	Arr [2]string
+	F   func(int) int
+}
+
 type nInt int
 type nBool bool
 type nFloat float64
@@ -206,6 +211,29 @@ func decodeVal(x *sx.Sexp) interface{} {
 			return &t
 		}
 		panic("unsupported pointer target")
+	case "goval":
+		// Go values of kinds outside the model: arrays, nil funcs, channels (fresh per decoding)
+		switch x.Xs[1].A {
+		case "arr3":
+			return [3]int{3, 0, 7}
+		case "parr3":
+			return &[3]int{3, 0, 7}
+		case "nilfunc":
+			return (func(string) string)(nil)
+		case "niljfunc":
+			return jet.Func(nil)
+		case "sendch":
+			return (chan<- int)(make(chan int, 1))
+		case "recvch":
+			c := make(chan int, 3)
+			c <- 4
+			c <- 5
+			close(c)
+			return (<-chan int)(c)
+		case "holder":
+			return goHolder{Arr: [2]string{"x<", "y"}}
+		}
+		panic("unknown goval " + x.Xs[1].A)
 	case "named":
 		// named types whose printed form comes from a method, whatever their kind
 		v := decodeVal(x.Xs[2])
